@@ -171,20 +171,43 @@ def read_filter_suites(fi):
             v = st.value
             if isinstance(v, ast.Attribute) and isinstance(v.value, ast.Name) and v.value.id == "settings":
                 names_var[st.targets[0].id] = v.attr
-            elif isinstance(v, ast.List) and not v.elts:
+            elif (isinstance(v, ast.List) and not v.elts) or (
+                    isinstance(v, ast.Call) and isinstance(v.func, ast.Name) and v.func.id in ("set", "list")
+                    and not v.args and not v.keywords):
                 acc_of[st.targets[0].id] = None
+
+    def accumulation(s):
+        """`acc += L`, `acc.update(L)` / `acc.extend(L)`, `acc |= set(L)`, `acc = acc + L` -> (acc, L)"""
+        def unwrap(e):
+            if isinstance(e, ast.Call) and isinstance(e.func, ast.Name) and e.func.id in ("set", "list", "tuple", "frozenset") \
+                    and len(e.args) == 1 and not e.keywords:
+                return e.args[0]
+            return e
+        if isinstance(s, ast.AugAssign) and isinstance(s.op, (ast.Add, ast.BitOr)) and isinstance(s.target, ast.Name):
+            return s.target.id, unwrap(s.value)
+        if isinstance(s, ast.Expr) and isinstance(s.value, ast.Call) and isinstance(s.value.func, ast.Attribute) \
+                and s.value.func.attr in ("update", "extend") and isinstance(s.value.func.value, ast.Name) \
+                and len(s.value.args) == 1 and not s.value.keywords:
+            return s.value.func.value.id, unwrap(s.value.args[0])
+        if isinstance(s, ast.Assign) and len(s.targets) == 1 and isinstance(s.targets[0], ast.Name) \
+                and isinstance(s.value, ast.BinOp) and isinstance(s.value.op, (ast.Add, ast.BitOr)) \
+                and isinstance(s.value.left, ast.Name) and s.value.left.id == s.targets[0].id:
+            return s.targets[0].id, unwrap(s.value.right)
+        return None
     kind_of_names = {"macNames": "mac", "cipherNames": "cipher", "keyExchangeNames": "kx"}
     for st in fn.body:
         if not isinstance(st, ast.If):
             continue
         if st.orelse:
             continue
-        # body: acc += CipherSuite.X
-        if not (len(st.body) == 1 and isinstance(st.body[0], ast.AugAssign)
-                and isinstance(st.body[0].op, ast.Add) and isinstance(st.body[0].target, ast.Name)):
+        # body: acc += CipherSuite.X (or one of its spellings)
+        a_ = accumulation(st.body[0]) if len(st.body) == 1 else None
+        if a_ is None:
+            if any(isinstance(x, ast.Name) and x.id in acc_of for x in ast.walk(st)):
+                raise AnalysisError("_filterSuites: unrecognised accumulation %s" % norm(st.body[0]))
             continue
-        acc = st.body[0].target.id
-        lst = attr_chain(st.body[0].value)
+        acc = a_[0]
+        lst = attr_chain(a_[1])
         if acc not in acc_of or not lst or not lst.startswith("CipherSuite."):
             raise AnalysisError("_filterSuites: unrecognised accumulation %s" % norm(st.body[0]))
         conds = st.test.values if isinstance(st.test, ast.BoolOp) and isinstance(st.test.op, ast.And) \
@@ -249,6 +272,7 @@ class SuiteWalk(object):
         self.sid = sid
         self.facts = []
         self.consts = {}     # local name -> constant value, or UNKNOWN
+        self.asts = {}       # local name -> the expression it stands for (literal tables, loop rows)
 
     UNKNOWN = object()
 
@@ -257,7 +281,10 @@ class SuiteWalk(object):
             return bool(self.consts[e.id])
         if isinstance(e, ast.Compare) and len(e.ops) == 1 and isinstance(e.ops[0], (ast.In, ast.NotIn)) \
                 and _is_suite_expr(e.left):
-            c = attr_chain(e.comparators[0])
+            cmp_ = e.comparators[0]
+            if isinstance(cmp_, ast.Name) and cmp_.id in self.asts:
+                cmp_ = self.asts[cmp_.id]
+            c = attr_chain(cmp_)
             if c and c.startswith("CipherSuite."):
                 v = self.sid in self.t.L(c.split(".", 1)[1])
                 return v if isinstance(e.ops[0], ast.In) else not v
@@ -282,6 +309,8 @@ class SuiteWalk(object):
         if isinstance(e, ast.Constant):
             return e.value
         if isinstance(e, ast.Name):
+            if e.id in self.asts and not (isinstance(self.asts[e.id], ast.Name) and self.asts[e.id].id == e.id):
+                return self.value(self.asts[e.id])
             return "name:" + e.id
         if isinstance(e, ast.Attribute):
             return "attr:" + (attr_chain(e) or norm(e))
@@ -298,6 +327,27 @@ class SuiteWalk(object):
                 return self.value(e.orelse)
             return ("either", self.value(e.body), self.value(e.orelse))
         return "expr:" + norm(e)[:60]
+
+    def _rows(self, loop):
+        it = loop.iter
+        if isinstance(it, ast.Name) and it.id in self.asts:
+            it = self.asts[it.id]
+        if not isinstance(it, (ast.Tuple, ast.List)) or not it.elts or len(it.elts) > 40:
+            return None
+        tg = loop.target
+        if isinstance(tg, ast.Name):
+            return it.elts
+        if isinstance(tg, ast.Tuple) and all(isinstance(x, ast.Name) for x in tg.elts) and \
+                all(isinstance(el, (ast.Tuple, ast.List)) and len(el.elts) == len(tg.elts) for el in it.elts):
+            return it.elts
+        return None
+
+    def _bind(self, target, el):
+        if isinstance(target, ast.Name):
+            self.asts[target.id] = el
+        else:
+            for t_, e_ in zip(target.elts, el.elts):
+                self.asts[t_.id] = e_
 
     def _calls(self, node):
         for n in ast.walk(node):
@@ -342,6 +392,21 @@ class SuiteWalk(object):
                             self.consts[k] = self.UNKNOWN
                     if a and b and s.orelse:
                         return True
+            elif isinstance(s, ast.For) and self._rows(s) is not None:
+                # a loop over a literal table of rows is walked row by row (`for suites, k, iv, f in TABLE`)
+                left = False
+                for el in self._rows(s):
+                    self._bind(s.target, el)
+                    if self.walk(s.body):
+                        left = True
+                        break
+                for x in ast.walk(s.target):
+                    if isinstance(x, ast.Name):
+                        self.asts.pop(x.id, None)
+                if left:
+                    return True
+                if self.walk(s.orelse):
+                    return True
             elif isinstance(s, (ast.For, ast.While)):
                 self._calls(s.iter if isinstance(s, ast.For) else s.test)
                 if isinstance(s, ast.For):
@@ -360,6 +425,11 @@ class SuiteWalk(object):
                 self.walk(s.finalbody)
             elif isinstance(s, ast.Assign):
                 val = self.value(s.value)
+                if len(s.targets) == 1 and isinstance(s.targets[0], ast.Name):
+                    if isinstance(s.value, (ast.Tuple, ast.List)):
+                        self.asts[s.targets[0].id] = s.value
+                    else:
+                        self.asts.pop(s.targets[0].id, None)
                 for t in s.targets:
                     for x in ast.walk(t):
                         if isinstance(x, ast.Name):
